@@ -294,7 +294,9 @@ def run(ctx):
             for hp, rs, ss, hc, vf in itertools.product((False, True), (True, False), (True, False), (True, False), vs(flags_in(paths)))]
     compare(ctx, w, f, paths, rule, scen, lambda sc, fl: A.Scenario(
         bools=flag_bools(fl) + [(r"RoomCreateEvent::has_creator\(create\)\.Ok\.0", sc["has_creator"])],
-        eqs=[(r"server_name", sc["room_id_server_is_sender_server"])],
+        # the room ID's server against the SENDER's server (either operand order); any other comparison (e.g. with content.creator) stays unmapped
+        eqs=[(r"^RoomId::server_name\(Event::room_id\(create\)\)\.Some\.0==UserId::server_name\(Event::sender\(create\)\)$|"
+              r"^UserId::server_name\(Event::sender\(create\)\)==RoomId::server_name\(Event::room_id\(create\)\)\.Some\.0$", sc["room_id_server_is_sender_server"])],
         wrappers=[(r"^Iterator::next\(Event::prev_events\(create\)\)$|^iter::next\(Event::prev_events\(create\)\)$|next\(.*prev_events\(create\)\)$", "Some" if sc["has_prev_events"] else "None"),
                   (r"RoomId::server_name\(", "Some" if sc["room_id_has_server"] else "None")]), spec.room_create, "create")
 
@@ -304,7 +306,9 @@ def run(ctx):
     scen = [(dict(sender_pl=sp, redact_pl=rp, same_server_as_redacted=ss), ("-", {})) for sp, rp, ss in itertools.product(lv, lv, (True, False))]
     compare(ctx, w, f, paths, rule, scen, lambda sc, fl: A.Scenario(
         ints=[(r"^sender_pl$", sc["sender_pl"]), (r"get_as_int_or_default\(pl_event, RoomPowerLevelsIntField::Redact", sc["redact_pl"])],
-        eqs=[(r"server_name", sc["same_server_as_redacted"])]), spec.room_redaction, "redaction")
+        # the event ID's server against the server of the redacted event's ID (either order)
+        eqs=[(r"^EventId::server_name\(Event::event_id\(ev\)\)==EventId::server_name\(Event::redacts\(ev\)\.Some\.0\)$|"
+              r"^EventId::server_name\(Event::redacts\(ev\)\.Some\.0\)==EventId::server_name\(Event::event_id\(ev\)\)$", sc["same_server_as_redacted"])]), spec.room_redaction, "redaction")
 
     # ---- top level -----------------------------------------------------------------------------------------------
     f = w.fn(EA + "auth_check")
@@ -328,7 +332,8 @@ def run(ctx):
                 (r"Iterator::any\(Event::auth_events\(ev\)", sc["create_in_auth_events"]), (r"RoomCreateEvent::federate\(.*\)\.Ok\.0$", sc["federate"]),
                 (r"str::starts_with\(Event::state_key\(ev\)\.Some\.0, '@'\)", sc["state_key_starts_with_at"])],
             ints=[(PL_USER.format(r"Event::sender\(ev\)"), sc["sender_pl"]), (PL_FIELD.format("Invite"), sc["invite_pl"]),
-                  (r"event_power_level\(", sc["required_pl"])],
+                  # the level required for THIS event's type and state key
+                  (r"event_power_level\(FetchStateExt::room_power_levels_event\(fetch\), Event::event_type\(ev\), Event::state_key\(ev\), rules\)", sc["required_pl"])],
             eqs=[(r"UserId::server_name\(Event::sender\(.*room_create_event.*==UserId::server_name\(Event::sender\(ev\)\)|UserId::server_name\(Event::sender\(ev\)\)==UserId::server_name", sc["same_server_as_creator"]),
                  # the state key compared as Option (`state_key() == Some(x)`) or unwrapped inside a closure (`k == x`), either operand order
                  (SK + r"==(Option::Some\()?ServerName::as_str|(Option::Some\()?ServerName::as_str.*==" + SK, sc["state_key_is_sender_server"]),
